@@ -417,7 +417,8 @@ def embedding_law(ctx):
         raise vlib.Inconclusive("MC_EmbedLaw violated %s -- spec error, no verdict" % r.violated)
     return {"tool": "apalache-mc 0.58.0: MAX any natural in 3..2^32-1, times 0..MAX, ring sizes 1..8; TLC ties the operators to SerfEventOps (MAX 3..40)",
             "obligations": ["SlotIx(b,t) = E(t) % b", "0 <= E(t) < 2^64", "Pos order = order of real values", "E(MAX) = 2^64-1, E(0) = 0",
-                            "E(t+1) = E(t)+1 except across the gap", "naive slot t % b refuted"]}
+                            "E(t+1) = E(t)+1 except across the gap", "E(Wrap(t+1)) = (E(t)+1) mod 2^64",
+                            "window test TooOld on model times = on real values", "naive slot t % b refuted"]}
 
 
 ASSUME_SEQ = ["deliveries are read from Config.EventCh after a marker pushed through the head of the event pipeline came out",
